@@ -442,8 +442,10 @@ func (s *Sim) deferredWindow(c *Client, rid string, t *Trigger) bool {
 		if o.Action == "unsubscribe" || o.Action == "version" || o.Seq > t.DlvSeq || (o.Resp != nil && o.Resp.Seq < t.DlvSeq) {
 			continue
 		}
-		// o was in progress when the trigger arrived
-		if o.RID == rid {
+		// o was in progress when the trigger arrived: the subscription was
+		// loading (and queueing) for it, as its own resource or as one that can
+		// be reached from it through references
+		if o.RID == rid || (o.RID != "" && (s.W.everReachable([]string{c.expandCID(o.RID)}, c.expandCID(rid)) || s.W.everReachable([]string{c.expandCID(o.RID)}, rid))) {
 			return true
 		}
 		if o.Action == "call" || o.Action == "auth" || o.Action == "new" {
